@@ -8,8 +8,11 @@ calls for the node (counted by the measure closure per NodeId).  `Model/BlockEng
 runs compute_root_layout + `memo_real` (Model/EngineReal.v: the engine skeleton over a cache interface, instantiated with
 src/tree/cache.rs's get / store / clear = Model/Cache.v over the key projection) with the block algorithm and the leaf kernel over F32
 and must reproduce ALL of it: bit-exact layouts, count-exact queries / hits / measure calls.  The model additionally reports the number
-of LOSSY hits (ghost state: the answering entry was stored for another complete input): the class "no lossy hit" is the one on which
-`C01_real_equals_exact_when_no_lossy_hit` transfers the exact-key theorems to the real cache.
+of LOSSY hits (ghost state: the answering entry was stored for another complete input; complete inputs are compared with the
+REPRESENTATION equality of binary32, Model/TaffyKey.v f32_seqb -- an equality of inputs, unlike IEEE `==`): the class "no lossy hit" is
+the one on which `C01_real_block_equals_exact_when_no_lossy_hit_partial` (no premise about the key) makes every pass of the real-cache
+run return the output the exact-key memo returns.  The check ENFORCES the consequence the harness can observe: no tree without a lossy
+hit lays out differently from the exact-key run (`L` lines of `vh blocktree cases .. real`); a violation is a broken correspondence.
 
 `vh blocktree chains`: 576 deterministic chains of block containers (depth 1..16) over a measured leaf, same format.
 
@@ -118,6 +121,20 @@ def real_tree_k(rep, pid, binp, seed, n):
             nm += a[r * REC + bt.LAY_LEN + 2]
         leafc += [x[2] for x in leaf_counts(c, a)]
     no_lossy = [i for i in range(len(cases)) if lossy[i] == 0]
+    hits_of = lambda a: sum(a[r * REC + bt.LAY_LEN + 1] for r in range(len(a) // REC))
+
+    def interior(c, a):
+        nn = len(bt.decode_nodes(c))
+        return any(a[r * REC + bt.LAY_LEN + 1] and r % nn != 0 for r in range(len(a) // REC))
+    with_hit = [i for i in no_lossy if hits_of(impl[i]) > 0]
+    # theorem + correspondence: a real-cache run without lossy hit returns what the exact-key run returns.  The harness lays every
+    # tree out twice (hook off / hook on) and prints how many layout integers differ: on a tree without lossy hit that must be 0
+    contradicting = [i for i in no_lossy if differ[i]]
+    for i in contradicting[:3]:
+        rep.add_broken('correspondence', 'a tree WITHOUT lossy hit (model ghost count 0) lays out differently from the exact-key run',
+                       {'what': 'C01_real_block_equals_exact_when_no_lossy_hit_partial + the whole-tree correspondence say the real-cache run '
+                                'equals the exact-key run here; the implementation\'s two runs differ in %d layout integers '
+                                '(vh blocktree case %d %d)' % (differ[i], seed, i), 'case': cases[i][:40]})
     rep.cov['blocktree_real_cache'] = {
         'trees': len(cases), 'disagreements': len(bad), 'seconds': round(time.time() - t0, 1),
         'layout_fields_compared': sum(len(a) // REC * bt.LAY_LEN for a in impl),
@@ -126,11 +143,18 @@ def real_tree_k(rep, pid, binp, seed, n):
         'measure_calls_per_leaf_per_pass_distribution': _hist(leafc),
         'lossy_hits_total': sum(l for l in lossy if l >= 0),
         'lossy_hits_per_tree_distribution': _hist(lossy),
+        'lossy_hits_counted_with': 'the representation equality of binary32 on complete inputs (Model/TaffyKey.v f32_seqb)',
         'trees_without_lossy_hit': len(no_lossy),
-        'trees_without_lossy_hit_note': 'the class on which C01_real_equals_exact_when_no_lossy_hit makes the real-cache run return what the '
-                                        'cache-free evaluation / the exact-key memo returns',
+        'trees_without_lossy_hit_note': 'the class on which C01_real_block_equals_exact_when_no_lossy_hit_partial makes the real-cache run return '
+                                        'what the cache-free evaluation / the exact-key memo returns; only the trees WITH a cache hit are '
+                                        'informative (without any hit the statement compares two cache-free evaluations)',
+        'trees_without_lossy_hit_but_with_a_cache_hit': len(with_hit),
+        'of_which_with_a_hit_below_the_root': sum(1 for i in with_hit if interior(cases[i], impl[i])),
+        'non_lossy_hits_in_those_trees': sum(hits_of(impl[i]) for i in with_hit),
+        'single_node_trees_without_lossy_hit': sum(1 for i in no_lossy if len(bt.decode_nodes(cases[i])) == 1),
         'trees_whose_layout_differs_from_the_exact_key_run': sum(1 for d in differ if d),
-        'of_which_without_lossy_hit': sum(1 for i in no_lossy if differ[i]),
+        'of_which_without_lossy_hit': len(contradicting),
+        'of_which_without_lossy_hit_is_checked': 'must be 0: a tree without lossy hit that differs from the exact-key run is a broken correspondence',
         'first_disagreements': ['idx %d: %s (vh blocktree case %d %d)' % (cases.index(c), describe_diff(c, a, b), seed, cases.index(c))
                                 for c, a, b in bad[:5]],
     }
